@@ -9,6 +9,9 @@
 //   C<id> / D<id> / U<id>   a Value object inside block <id> was constructed / destroyed /
 //                           read, moved from or assigned (objects outside allocator blocks, i.e.
 //                           temporaries and locals, are not listed; the lib registries still check them)
+// Then the raw table line (read through -fno-access-control, compared with the POINTER-LEVEL model HashMapPtr.v):
+//   t <block id of _table, 0 = nullptr> <_capacity> <_size> <bucket>=<block id>:<key>:<value>,<block id>:<key>:<value> ...
+// (non-empty buckets only, every chain head to tail; the chain-level comparison drops these lines).
 // After the last op the map goes out of scope: line "dtor", then the destructor's event line.
 // `harness --sizes` prints sizeof(chain *) and sizeof(chain) (parameters of the model).
 #include <unordered_map>
@@ -121,6 +124,25 @@ static void balance(Map &m, const char *after) {
 			after, vh::g_life.live.size(), g_inblock.size());
 }
 
+// the raw pointer structure: _table, _capacity, _size and every chain (no lifetime/allocator events are produced)
+static void dump_table(Map &m) {
+	printf("t %d %zu %zu", block_of(m._table), (size_t)m._capacity, (size_t)m._size);
+	size_t limit = m._size + 8;
+	for(size_t b = 0; b < m._capacity; b++) {
+		Map::chain *item = m._table[b];
+		if(!item) continue;
+		printf(" %zu=", b);
+		size_t steps = 0;
+		for(; item; item = item->next, steps++) {
+			if(steps) printf(",");
+			if(steps > limit) { printf("CYCLE"); break; }
+			printf("%d:%llu:%llu", block_of(item), (unsigned long long)item->entry.template get<0>(),
+				(unsigned long long)item->entry.template get<1>().v);
+		}
+	}
+	printf("\n");
+}
+
 static void body(const vh::Lines &ls) {
 	Hasher h;
 	size_t start = 0;
@@ -191,6 +213,7 @@ static void body(const vh::Lines &ls) {
 				if(m.empty() != ref.empty()) vh::oracle("refmap", "empty() disagrees with the reference");
 			} else continue;
 			printf("e%s\n", g_ev.c_str());
+			dump_table(m);
 			// per-op counters against what the op did to size(): one node per new entry, one per removed entry
 			long dsize = (long)m.size() - (long)size_before;
 			if(g_op_cons - g_op_des != dsize)
